@@ -663,6 +663,10 @@ class Engine:
                 v = self.read_place(st, fid, l, p)
                 if isinstance(v, SymEnum):
                     return I(v.v, 64, True)
+                if isinstance(v, SymOrdering):
+                    return I(z3.SignExt(56, v.v), 64, True)            # Less = -1, Equal = 0, Greater = 1
+                if isinstance(v, Adt) and v.ty.endswith('cmp::Ordering') and v.variant in ('Less', 'Equal', 'Greater'):
+                    return I({'Less': -1, 'Equal': 0, 'Greater': 1}[v.variant], 64, True)
                 return I(self.variant_index(v), 64, True)
             if op == 'Len':
                 l, p = self.parse_place(inner); v = self.read_place(st, fid, l, p)
@@ -785,6 +789,8 @@ class Engine:
         return Adt(path, None, flds)
 
     def variant_index(self, v):
+        if isinstance(v, SymOrdering):
+            raise ValueError('symbolic Ordering: use discriminant_value')
         if isinstance(v, Ref):
             raise ValueError('discriminant of a reference')
         if not isinstance(v, Adt):
